@@ -299,6 +299,21 @@ func (in *Interp) joinEnv(into, a, b *env, la, lb *relang.DFA) {
 			}
 			continue
 		}
+		sa, isSA := va.(*strT)
+		sb, isSB := vb.(*strT)
+		if isSA && isSB && !sa.isConst && !sb.isConst {
+			// a string derived from the subject in two ways, depending on the branch taken: for the inputs that took
+			// branch a it is what a computed, for the others what b computed
+			la2, lb2 := la, lb
+			into.vars[k] = &strT{
+				pre: func(L *relang.DFA) *relang.DFA {
+					return relang.Union(relang.Inter(la2, sa.pre(L)), relang.Inter(lb2, sb.pre(L)))
+				},
+				exact: sa.exact && sb.exact,
+				desc:  "either(" + sa.desc + " | " + sb.desc + ")",
+			}
+			continue
+		}
 		in.fail("variable %s is assigned in only one branch of an if", k)
 	}
 }
@@ -617,8 +632,10 @@ func (in *Interp) call(c *ast.CallExpr, ev *env) any {
 		return &strT{pre: func(L *relang.DFA) *relang.DFA { return s.pre(in.E.PreToLower(L)) }, exact: s.exact && in.E.lowExact, desc: "ToLower(" + s.desc + ")"}
 	case "strings.TrimSuffix":
 		s, suf := str(0), cs(1)
-		ex := s.exact && len([]rune(suf)) == 1
-		return &strT{pre: func(L *relang.DFA) *relang.DFA { p, _ := in.E.PreTrimSuffix(L, suf); return s.pre(p) }, exact: ex, desc: fmt.Sprintf("TrimSuffix(%s,%q)", s.desc, suf)}
+		return &strT{pre: func(L *relang.DFA) *relang.DFA { p, _ := in.E.PreTrimSuffix(L, suf); return s.pre(p) }, exact: s.exact, desc: fmt.Sprintf("TrimSuffix(%s,%q)", s.desc, suf)}
+	case "strings.TrimPrefix":
+		s, pre := str(0), cs(1)
+		return &strT{pre: func(L *relang.DFA) *relang.DFA { p, _ := in.E.PreTrimPrefix(L, pre); return s.pre(p) }, exact: s.exact, desc: fmt.Sprintf("TrimPrefix(%s,%q)", s.desc, pre)}
 	case "string":
 		// string(R.ReplaceAll([]byte(x), []byte{}))
 		if inner, ok := ast.Unparen(c.Args[0]).(*ast.CallExpr); ok {
@@ -994,6 +1011,15 @@ func (in *Interp) compare(x *ast.BinaryExpr, ev *env) *cond {
 			if x.Op == token.EQL {
 				return c
 			}
+		}
+	}
+	// two strings derived from the subject compared with each other (`trimmed == value`): not decided — both outcomes
+	// are taken to be possible for every input (an over-approximation of each branch)
+	if sl, ok := l.(*strT); ok && (x.Op == token.EQL || x.Op == token.NEQ) {
+		if sr, ok := r.(*strT); ok && !sl.isConst && !sr.isConst {
+			ev.note("comparison of two derived strings: both branches taken")
+			*ev.exact = false
+			return &cond{pos: in.E.All(), neg: in.E.All(), exact: false}
 		}
 	}
 	// list != nil
